@@ -107,6 +107,7 @@ class TaskSet : public TaskSetBase {
   DISPENSO_REQUIRES(OnceCallableFunc<F>)
   void schedule(F&& f) {
     if (DISPENSO_EXPECT(canceled(), false)) {
+      releaseSkipped(f);
       return;
     }
     if (outstandingTaskCount_.load(std::memory_order_relaxed) > taskSetLoadFactor_) {
@@ -304,9 +305,6 @@ class ConcurrentTaskSet : public TaskSetBase {
       schedulePlaced(std::forward<F>(f), skipRecheck, poolRecursiveLoadFactor);
       return;
     }
-    if (DISPENSO_EXPECT(canceled(), false)) {
-      return;
-    }
     // Combined inline decision (mirrors scheduleBulkImpl):
     // 1. TaskSet-level overload
     // 2. Pool-recursive: pool threads inline when workRemaining_ exceeds
@@ -320,7 +318,10 @@ class ConcurrentTaskSet : public TaskSetBase {
       f();
       return;
     }
-    if (!skipRecheck) {
+    // A canceled set never runs the functor inline: it is queued, where packageTask skips it and the
+    // functor is destroyed (a functor that is merely dropped here would never be cleaned up, e.g. an
+    // OnceFunction handed over by the pipeline).
+    if (!skipRecheck && DISPENSO_EXPECT(!canceled(), true)) {
       ssize_t curWork = pool_.workRemaining_.load(std::memory_order_relaxed);
       ssize_t quickFactor =
           static_cast<ssize_t>(static_cast<float>(pool_.numThreads()) * poolRecursiveLoadFactor);
@@ -453,9 +454,6 @@ class ConcurrentTaskSet : public TaskSetBase {
       F&& f,
       bool skipRecheck = false,
       float poolRecursiveLoadFactor = kDefaultPoolRecursiveLoadFactor) {
-    if (DISPENSO_EXPECT(canceled(), false)) {
-      return;
-    }
     ssize_t placedThreshold = std::max(pool_.numThreads() + 1, taskSetLoadFactor_ / 2);
     if (outstandingTaskCount_.load(std::memory_order_relaxed) > placedThreshold &&
         DISPENSO_EXPECT(!canceled(), true) && detail::PerPoolPerThreadInfo::canInlineSchedule()) {
@@ -463,7 +461,10 @@ class ConcurrentTaskSet : public TaskSetBase {
       f();
       return;
     }
-    if (!skipRecheck) {
+    // A canceled set never runs the functor inline: it is queued, where packageTask skips it and the
+    // functor is destroyed (a functor that is merely dropped here would never be cleaned up, e.g. an
+    // OnceFunction handed over by the pipeline).
+    if (!skipRecheck && DISPENSO_EXPECT(!canceled(), true)) {
       ssize_t curWork = pool_.workRemaining_.load(std::memory_order_relaxed);
       ssize_t quickFactor =
           static_cast<ssize_t>(static_cast<float>(pool_.numThreads()) * poolRecursiveLoadFactor);
